@@ -172,7 +172,10 @@ func genHistOp(r *Rng, obj string) Op {
 }
 
 // prelude: exhaustive byte-string lengths 0..80 for every byte-string setter
-type histPrelude struct{ obj, k string; first byte }
+type histPrelude struct {
+	obj, k string
+	first  byte
+}
 
 var histPreludes = func() []histPrelude {
 	var out []histPrelude
